@@ -267,7 +267,7 @@ func c10Judge(c spec.Case, evs []spec.Event, d *Death) CaseResult {
 	sort.Strings(ks)
 	sample := map[string]any{"stderr": trunc(string(p.Stderr), 160), "stderr_len": len(p.Stderr), "stdout_len": len(p.Stdout) * max(1, p.StdoutRep), "buf": effBuf(p.BufSize), "line_kinds": ks}
 	res := CaseResult{Verdict: "held", Counters: map[string]int{}, Sample: sample}
-	res.Class = fmt.Sprintf("kinds=%s buf=%d out=%s", strings.Join(ks, ","), effBuf(p.BufSize), sizeClass(len(p.Stdout)*max(1, p.StdoutRep), maxLine(p.Stdout)))
+	res.Class = fmt.Sprintf("kinds=%s buf=%d out=%s real=%v", strings.Join(ks, ","), effBuf(p.BufSize), sizeClass(len(p.Stdout)*max(1, p.StdoutRep), maxLine(p.Stdout)), p.Real)
 	viol := func(key, msg string) {
 		res.Verdict = "violated"
 		res.Violations = append(res.Violations, Violation{Key: "C10:" + key, Msg: msg})
@@ -601,6 +601,26 @@ func c10Gen(r *rand.Rand, tier string) []spec.Case {
 		bs := bufs[i%3]
 		p := spec.C10Case{Stderr: []byte(c10LineOf(r, effBuf(bs)) + "\n"), BufSize: bs}
 		add("stderr-one", p)
+	}
+	// a sample through a real plugin process (kernel pipes, cmdrunner); the input must end with a
+	// newline there because the process stays alive (an unterminated tail would still be in flight)
+	nreal := 24
+	if tier == "thorough" {
+		nreal = 600
+	}
+	for i := 0; i < nreal; i++ {
+		bs := []int{64, 4096, 0}[i%3]
+		var sb strings.Builder
+		for j := 0; j < 1+r.Intn(8); j++ {
+			sb.WriteString(c10LineOf(r, effBuf(bs)))
+			sb.WriteByte('\n')
+		}
+		p := spec.C10Case{Stderr: []byte(sb.String()), BufSize: bs, Real: true, Chunk: pick(r, []int{0, 700, 4096})}
+		if i%4 == 0 {
+			p.Stdout = []byte(c10Text(r, pick(r, []int{10, 5000, 70000, 200000})) + "\n")
+			p.StdoutRep = 1 + r.Intn(3)
+		}
+		add("stderr-real", p)
 	}
 	// stdout volume / line length after the handshake
 	type so struct {
